@@ -152,7 +152,11 @@ theorem step_cacheOk (s : St) (op : Op) (hd : disciplined op = true) (h : CacheO
   cases op with
   | setStr k x => intro c hc; simp [step] at hc
   | setList k l => intro c hc; simp [step] at hc
-  | del k => intro c hc; simp [step] at hc
+  | del k =>
+    simp only [step]
+    split
+    · intro c hc; simp at hc
+    · exact h
   | getitem k =>
     simp only [step]
     split
